@@ -58,13 +58,9 @@ theorem rejAdd_env (K : Keys) (s : State) (r : Rej) : Env s (rejAdd K s r) := by
 theorem rejectTx_env (K : Keys) (s : State) (t : Tx) (why : Nat) (m : Option TxId) :
     Env s (rejectTx K s t why m) := rejAdd_env K s _
 
-theorem addToSort_env (K : Keys) (s : State) (b : Nat) (t : T2S) : Env s (addToSort K s b t) := by
-  unfold addToSort
-  split
-  · exact Env.refl s
-  · split
-    · exact ⟨rfl, rfl, id⟩
-    · split <;> exact ⟨rfl, rfl, id⟩
+theorem addToSort_env (K : Keys) (s : State) (b : Nat) (t : T2S) : Env s (addToSort K s b t) :=
+  have h := addToSort_sortOnly K s b t
+  ⟨h.utxo, h.undo, h.sticky⟩
 
 theorem delFromSort_env (s : State) (b : Nat) : Env s (delFromSort s b) := by
   unfold delFromSort
